@@ -541,8 +541,8 @@ func normalizeStructInto(cfg *Config, opts *options, from reflect.Value) Error {
 	return nil
 }
 
-// normalizeConfigInto adds the named settings of the inlined Config from to
-// cfg. from is only read: the values added are copies.
+// normalizeConfigInto adds the named settings and the list elements of the
+// inlined Config from to cfg. from is only read: the values added are copies.
 func normalizeConfigInto(cfg *Config, opts *options, from *Config) Error {
 	if from.fields == nil {
 		return nil
@@ -557,6 +557,13 @@ func normalizeConfigInto(cfg *Config, opts *options, from *Config) Error {
 		// the names of a Config are single path elements already
 		p := cfgPath{sep: opts.pathSep, fields: []field{namedField{name}}}
 		if err := normalizeSetValue(cfg, opts, p, name, dict[name].cpy(context{})); err != nil {
+			return err
+		}
+	}
+	// the elements of an inlined list become elements of the enclosing object
+	for i, v := range from.fields.array() {
+		p := cfgPath{sep: opts.pathSep, fields: []field{idxField{i}}}
+		if err := normalizeSetValue(cfg, opts, p, fmt.Sprintf("%d", i), v.cpy(context{})); err != nil {
 			return err
 		}
 	}
